@@ -59,6 +59,21 @@ CHECKS.update({
         design="Part II C15"),
 })
 
+CHECKS.update({
+    "C09": dict(
+        text=("Coq theorems over arbitrary byte-string names (non-UTF-8 included): only `<name>.~<ASCII digits>~` with a u64 "
+              "value counts as a backup of <name> and every generated backup name is recognised; the chosen number exceeds "
+              "all present and its name is fresh; one overwrite preserves the old version under that name and changes "
+              "nothing else; any history never touches an existing entry; at every intermediate state of an overwrite the "
+              "old content is under the original or the backup name; auto mode backs up iff a backup of that name exists. "
+              "Tied to libxcp::backup by running is_num_backup/next_backup_num/get_backup_path (hooks) and the model on the "
+              "same names and directories, plus histories of real xcp runs and SIGKILL at every mutating call."),
+        note=("after the repair `fix: recognise numbered backups by exact raw name`. Guard: existing numbers < 2^64-1 "
+              "(`current + 1` panics in debug / wraps in release at u64::MAX). rename(2) atomicity is the kernel's."),
+        technique="Coq proof over byte-string model of backup.rs + differential probe and history/kill correspondence",
+        design="Part II C09"),
+})
+
 NOT_YET = {}
 
 def main():
